@@ -40,6 +40,9 @@ def run(chk):
              "mean position")
     chk.rule("SPLIT.no-duplicate", "DoSplitOp inserts the rounded intersection point between prevOp and nextNextOp exactly when it differs from both "
              "(4 cells, guard interpreted)")
+    chk.rule("SORTED.invalidate", "the sweep pops local minima from a list it assumes sorted: every public method that may modify minima_list_ writes "
+             "minima_list_sorted_ on every path and the flag becomes true only after a sort (out-of-order minima leave bounds without a partner edge, "
+             "which are then extended past their top vertex: crossing edges and vertices outside the input bounds in the solution)")
     chk.rule("REMOVAL.restart", "CleanCollinear restarts its lap (startOp = op2) on every path after a removal")
     chk.rule("SIBLING.64-D", "BuildPathD / BuildPathsD / BuildTreeD are their 64-bit siblings modulo renames and de-scaling")
     for cfg in cfgs:
@@ -60,6 +63,12 @@ def run(chk):
         if _e10.rule_bound_live(db, chk, cfg, lambda cls: _e2.E2(db, chk, cfg, cls)) < 4:
             from ..extract import AnalysisBroken as _AB
             raise _AB("LOOP.bound-live: fewer than 4 index loops over a member container that their body can grow (configuration %s)" % cfg)
+        from .c12 import _public_methods
+        for cls in (["ClipperBase", "Clipper64"], ["ClipperBase", "ClipperD"]):
+            # local minima popped out of order leave bounds without a partner: edges run past their top vertex and put vertices outside the input bounds
+            if _e2.rule_sorted_flag(_e2.E2(db, chk, cfg, cls), chk, cfg, _public_methods(db, set(cls))) < 6:
+                from ..extract import AnalysisBroken as _AB
+                raise _AB("SORTED.invalidate: fewer than 6 instances")
         from ..engines import e14_poly as e14
         e14.rule_cross(db, chk, cfg)
         e14.rule_measure(db, chk, cfg)
